@@ -319,8 +319,8 @@ M('c15-nc-wrong-line', ['C15'], Y23 + 'fnc_d_400.py', "v['25'] - v['19'] if v['2
 M('c15-refund-not-reduced', ['C15'], Y23 + 'f1040.py', "FloatField('35a', lambda s, i, v: v['34'] - v['36'] if v['34'] > 0.001 else None),", "FloatField('35a', lambda s, i, v: v['34'] if v['34'] > 0.001 else None),", 'R15.1', 'refund no longer reduced by the amount applied to next year')
 M('c15-apply-unbounded', ['C15'], Y23 + 'f1040.py', "min(v['34'], max(0.0, i['apply_to_estimated_tax']))", "max(0.0, i['apply_to_estimated_tax'])", 'R15.2', 'amount applied to next year may exceed the overpayment: refund goes negative')
 
-M('c15-nc-tax-floor-removed', ['C15'], Y23 + 'fnc_d_400.py', "FloatField('15', lambda s, i, v: max(0.0, v['14'] * 0.0475), places=0), # NC Income Tax", "FloatField('15', lambda s, i, v: v['14'] * 0.0475, places=0), # NC Income Tax", 'R15.2', 'NC income tax negative when NC taxable income is negative (F24 reverted)')
-M('c15-nc-use-tax-reversed', ['C15'], Y21 + 'fnc_d_400_consumer_use_tax_wkst.py', "round(v['2'] - v['3'], 0)", "round(v['3'] - v['2'], 0)", 'R15.2', '2021 NC use tax worksheet subtracts the tax from the credit (F25 reverted)')
+M('c15-nc-tax-floor-removed', ['C15', 'C02'], Y23 + 'fnc_d_400.py', "FloatField('15', lambda s, i, v: max(0.0, v['14'] * 0.0475), places=0), # NC Income Tax", "FloatField('15', lambda s, i, v: v['14'] * 0.0475, places=0), # NC Income Tax", None, 'NC income tax negative when NC taxable income is negative (F24 reverted)')
+M('c15-nc-use-tax-reversed', ['C15', 'C02'], Y21 + 'fnc_d_400_consumer_use_tax_wkst.py', "round(v['2'] - v['3'], 0)", "round(v['3'] - v['2'], 0)", None, '2021 NC use tax worksheet subtracts the tax from the credit (F25 reverted)')
 M('c15-nc-use-tax-credit-uncapped', ['C15'], Y21 + 'fnc_d_400_consumer_use_tax_wkst.py', "min(i['other_state_sales_tax'], v['2'])", "i['other_state_sales_tax']", 'R15.2', 'credit for tax paid to another state no longer capped at the use tax: relational proof lost')
 M('c15-wkst-min-to-max', ['C15'], Y23 + 'f1040_qualdiv_capgain_tax_wkst.py', "FloatField('8', lambda s, i, v: min(v['5'], v['7'])),", "FloatField('8', lambda s, i, v: max(v['5'], v['7'])),", 'R15.2', 'capital-gain worksheet: smaller-of replaced by larger-of lets line 9 = line 7 - line 8 go negative (relational stage)')
 M('c15-wkst-19-wrong-operand', ['C15'], Y23 + 'f1040_qualdiv_capgain_tax_wkst.py', "FloatField('19', lambda s, i, v: v['9'] + v['17']),", "FloatField('19', lambda s, i, v: v['9'] + v['16']),", 'R15.2', 'capital-gain worksheet line 19 adds line 16 instead of line 17: line 20 = line 10 - line 19 can go negative (needs the polyhedral case analysis)')
